@@ -168,3 +168,48 @@ pub fn bad_canon_helper(query: &str, e: &Entry, data: &[u8]) -> Option<TimeZone>
     }
     build_zone_from_query(query, data)
 }
+
+// ---- DAY-SUCC controls ---------------------------------------------------------------------------------------------
+#[derive(Clone, Copy)]
+pub struct Day(i8);
+
+impl Day {
+    pub fn new_unchecked(d: i8) -> Day {
+        Day(d)
+    }
+}
+
+#[derive(Clone, Copy)]
+pub struct CivilDate {
+    year: i16,
+    month: i8,
+    day: i8,
+}
+
+impl CivilDate {
+    pub fn day(self) -> i8 {
+        self.day
+    }
+
+    pub fn days_in_month(self) -> i8 {
+        if self.month == 2 {
+            if self.year % 4 == 0 { 29 } else { 28 }
+        } else {
+            30 + ((self.month + (self.month >> 3)) & 1)
+        }
+    }
+
+    pub fn bad_day_succ(self) -> Option<Day> {
+        if self.day() > 28 && self.day() == self.days_in_month() {
+            return None;
+        }
+        Some(Day::new_unchecked(self.day() + 1))
+    }
+
+    pub fn good_day_succ(self) -> Option<Day> {
+        if self.day() >= 28 && self.day() == self.days_in_month() {
+            return None;
+        }
+        Some(Day::new_unchecked(self.day() + 1))
+    }
+}
